@@ -21,9 +21,37 @@ def seed_rngs(seeds):
     np.random.seed(seeds[1] % (2 ** 32))
 
 
-def find(structure, pattern, atol, hints=(None, None, None), seeds=(0, 0), positions=False, what="search"):
-    """returns list of index tuples, or (indices, positions, rotations) ; any exception is a violation"""
+def _well_formed(res, positions, what):
+    """the documented return forms: a list of index tuples, or (indices, positions, rotations) of equal lengths"""
+    def is_index_list(x):
+        try:
+            return all(all(int(i) == i and not hasattr(i, "__len__") for i in m) for m in x)
+        except Exception:
+            return False
+    if positions:
+        if not (isinstance(res, tuple) and len(res) == 3 and is_index_list(res[0])):
+            raise Violation("malformed-result", "%s: positions and rotations requested, got %.200r" % (what, res))
+    elif isinstance(res, tuple) and len(res) == 3 and not is_index_list(res) or not is_index_list(res):
+        raise Violation("malformed-result", "%s: only indices requested, got %.200r" % (what, res))
+    return res
+
+
+def find(structure, pattern, atol, hints=(None, None, None), seeds=(0, 0), positions=False, what="search", form="keyword"):
+    """returns list of index tuples, or (indices, positions, rotations) ; any exception is a violation.
+    form="positional": every argument passed by position in the documented order
+    (structure, pattern, axisp1_idx, axisp2_idx, opoint_idx, return_positions_and_quats, atol)"""
     from mofun import find_pattern_in_structure
+    if form == "positional":
+        seed_rngs(seeds)
+        try:
+            with silenced():
+                res = find_pattern_in_structure(structure, pattern, hints[0], hints[1], hints[2], positions, atol)
+            return _well_formed(res, positions, what + " (positional call)")
+        except Violation:
+            raise
+        except Exception as e:
+            raise Violation("exception-in-" + what, "%s: %r (positional call, hints=%r)" % (type(e).__name__, e, list(hints)),
+                            data={"exc": type(e).__name__})
     kw = {}
     if hints[0] is not None:
         kw["axisp1_idx"] = hints[0]
@@ -34,7 +62,10 @@ def find(structure, pattern, atol, hints=(None, None, None), seeds=(0, 0), posit
     seed_rngs(seeds)
     try:
         with silenced():
-            return find_pattern_in_structure(structure, pattern, atol=atol, return_positions_and_quats=positions, **kw)
+            res = find_pattern_in_structure(structure, pattern, atol=atol, return_positions_and_quats=positions, **kw)
+        return _well_formed(res, positions, what)
+    except Violation:
+        raise
     except Exception as e:
         import traceback
         tb = traceback.extract_tb(e.__traceback__)
@@ -43,8 +74,15 @@ def find(structure, pattern, atol, hints=(None, None, None), seeds=(0, 0), posit
                         data={"exc": type(e).__name__, "site": site})
 
 
-def replace(structure, search, repl, atol, hints=(None, None, None), seeds=(0, 0), what="replace", **kw):
+def replace(structure, search, repl, atol, hints=(None, None, None), seeds=(0, 0), what="replace", form="keyword", **kw):
+    """form="positional": all thirteen documented parameters passed by position, in the documented order"""
     from mofun import replace_pattern_in_structure
+    if form == "positional":
+        seed_rngs(seeds)
+        with silenced():
+            return replace_pattern_in_structure(structure, search, repl, kw.get("replace_fraction", 1.0), atol, hints[0], hints[1],
+                                                hints[2], kw.get("return_num_matches", False), kw.get("replace_all", False), False,
+                                                0.1, kw.get("ignore_atoms_should_not_be_deleted_twice", False))
     if hints[0] is not None:
         kw["axisp1_idx"] = hints[0]
     if hints[1] is not None:
